@@ -102,7 +102,7 @@ PROPS = {
     "C18": {
         "module": "Cdecao.Props.C18",
         "theorems": ["Props.C18_sound", "Props.C18_nonempty", "Props.C18_dedup"],
-        "streams": ["rooms", "cli-simple"],
+        "streams": ["rooms", "cli-simple", "e2e-cde"],
     },
     "C19": {
         "module": "Cdecao.Props.C19",
